@@ -8,7 +8,7 @@ def classify(line):
     # known class (known-findings.txt): a pool that is BOTH administratively disabled and terminating is skipped by the
     # overlap pass, so an overlapping pool becomes allocatable while the terminating pool is still there.  The driver
     # tags exactly that shape from the implementation's observations.
-    if "disabled-terminating-unmasked" in line.get("tags", []):
+    if "disabled-terminating-unmasked" in line.get("tags") or []:
         return KEY_DT
     return None
 
